@@ -193,6 +193,12 @@ pub fn check_l2(vm: &mut VM, prog: &Program, layout: &Layout) -> (L2Verdict, Str
     if f.push_call_in_proc {
         classes.push("c08/nested-call-between-push-and-pop".to_string());
     }
+    if f.ret_with_sp_above {
+        classes.push("c08/ret-with-sp-above-its-value-at-the-call".to_string());
+    }
+    if f.ret_with_sp_below {
+        classes.push("c08/ret-with-sp-below-its-value-at-the-call".to_string());
+    }
     if rr.stop == Stop::RetWithoutCall {
         classes.push("c08/ret-without-call-stops-run".to_string());
     }
@@ -287,6 +293,12 @@ pub fn eval_cli(c: &C8Case) -> CaseOutcome {
     let mut classes = vec!["c08/cli".to_string()];
     if f.push_call_in_proc {
         classes.push("c08/cli/nested-call-between-push-and-pop".into());
+    }
+    if f.ret_with_sp_above {
+        classes.push("c08/cli/ret-with-sp-above-its-value-at-the-call".into());
+    }
+    if f.ret_with_sp_below {
+        classes.push("c08/cli/ret-with-sp-below-its-value-at-the-call".into());
     }
     CaseOutcome::Pass { nontrivial: nt, classes, digest: fnv_str(&rendered.text) }
 }
@@ -726,7 +738,7 @@ pub fn run(ctx: &Ctx) {
     } else {
         ctx.harness_error("CLI binary not built");
     }
-    for c in ["c08/backward-jump-taken", "c08/call-depth>=2", "c08/label-adjacent-to-proc-print-or-eof", "c08/same-proc-called-twice", "c08/ret-without-call-stops-run", "c08/label-shares-a-procedure-name", "c08/nested-call-between-push-and-pop"] {
+    for c in ["c08/backward-jump-taken", "c08/call-depth>=2", "c08/label-adjacent-to-proc-print-or-eof", "c08/same-proc-called-twice", "c08/ret-without-call-stops-run", "c08/label-shares-a-procedure-name", "c08/nested-call-between-push-and-pop", "c08/ret-with-sp-above-its-value-at-the-call", "c08/ret-with-sp-below-its-value-at-the-call"] {
         ctx.require_class(c, 20);
     }
 }
